@@ -65,6 +65,7 @@ def check(ctx):
     check_rowwise_cpm(ctx)
     check_sentinel(ctx)
     check_taxonomy_last(ctx)
+    check_every_chunk_counted(ctx)
     from .C05 import check_tiles
     check_tiles(ctx, ('diff_exp.precompute_from_anndata',
                       'diff_exp.precompute_utils'), floor=1)
@@ -612,3 +613,37 @@ def check_taxonomy_last(ctx):
                'the taxonomy_tree dataset is not dominated by the call '
                'that writes the numeric statistics: an interrupted run '
                'leaves a file that looks complete')
+
+
+def check_every_chunk_counted(ctx):
+    """the worker hands every chunk it was given to _process_chunk: a chunk
+    that is skipped (for a reason other than holding nothing to count)
+    makes the statistics depend on how the cells were cut into chunks"""
+    from ..rules import coverage as CV
+    db = ctx.db
+    fi = db.fn('diff_exp.precompute_from_anndata:_process_chunk_spec')
+    target = db.fn('diff_exp.precompute_from_anndata:_process_chunk')
+    ctx.touch(fi)
+    rule = 'R-COVER/every-chunk-counted'
+    cfg = cfg_of(fi)
+    loop = None
+    for n in ast.walk(fi.node):
+        if isinstance(n, ast.Call) and resolve_callee(db, fi, n) is target:
+            loop = CV.innermost_loop(n)
+    if loop is None:
+        ctx.fail(rule, '_process_chunk_spec', fi.loc(),
+                 'no loop calling _process_chunk found')
+        return
+
+    def act(node):
+        return any(resolve_callee(db, fi, c) is target
+                   for c in cfg.calls_in(node))
+
+    def allow(test, edge):
+        return CV.is_emptiness_test(test) and edge == 'true'
+    CV.check_cover(ctx, fi, rule, '_process_chunk_spec:chunks', loop, act,
+                   allow=allow, what='chunk',
+                   consequence='the cells of that chunk are missing from '
+                   'n_cells / sum / sumsq / gt0 / gt1 / ge1, so the result '
+                   'depends on rows_at_a_time, on file boundaries and on '
+                   'the split between workers')
